@@ -99,6 +99,46 @@ def esc(t):
     return t.replace('&', '&amp;').replace('<', '&lt;').replace('>', '&gt;')
 
 
+OLD_XTA = '''const N 3;
+int v; int w[2];
+process P(%s) { state S0; init S0; trans S0 -> S0 { assign %s; }; }
+Q := P(%s);
+system Q;
+'''
+# (name, parameter list, arguments, constant names, mutable names)
+OLD_PARAMS = [('const-group', 'const a, b, c', '1, 2, 3', ['a', 'b', 'c'], []), ('const-groups', 'const a; const b, c', '1, 2, 3', ['a', 'b', 'c'], []), ('const-then-int', 'const a, b; int m, n', '1, 2, v, v', ['a', 'b'], ['m', 'n']),
+              ('int-then-const', 'int m; const a, b', 'v, 1, 2', ['a', 'b'], ['m']), ('int-group', 'int m, n[2]', 'v, w', [], ['m', 'n[1]']),
+              ('mixed-three', 'const a; int m; const b, c', '1, v, 2, 3', ['a', 'b', 'c'], ['m'])]
+OLD_WRITES = ['%s := 1', '%s++', '%s += 2', '--%s', 'v := (%s := 2)']
+
+
+def old_syntax(run):
+    """the 3.x syntax has its own spelling of constants: `const N 3;` and parameter groups `const a, b` (constant integers by value) next to `int m, n` (references):
+    every name of a const group, in any position, rejects every write form; the reference parameters and globals accept them"""
+    j = vlib.Job()
+    cases = []
+    for name, params, args, consts, muts in OLD_PARAMS:
+        for tgt, is_const in [(c, True) for c in consts] + [(m, False) for m in muts] + [('N', True), ('v', False)]:
+            for wf in OLD_WRITES:
+                stmt = wf % tgt
+                cases.append((name, tgt, is_const, stmt, OLD_XTA % (params, stmt, args)))
+                j.case('o%d' % (len(cases) - 1), fork=True, old=True).model('xta', cases[-1][4]).dump('errors').end()
+        cases.append((name, None, False, 'v := v + 1', OLD_XTA % (params, 'v := v + ' + ' + '.join(consts + muts + ['N']), args)))     # reads are fine
+        j.case('o%d' % (len(cases) - 1), fork=True, old=True).model('xta', cases[-1][4]).dump('errors').end()
+    rr = vlib.run_jobs(j)
+    for k, (name, tgt, is_const, stmt, xta) in enumerate(cases):
+        c = rr['o%d' % k]
+        if c['status'] != 'ok':
+            run.fail('type checker crashed on a 3.x model (%r)' % stmt, dict(xta=xta, status=c['status']), shape='crash:old-syntax')
+            continue
+        errs = [l.split('msg="')[1].split('"')[0] for l in c['cmds'][1][2] if l.startswith('error')]
+        if is_const and not errs:
+            run.fail('3.x syntax: %r writes the constant %s (%s) and is accepted' % (stmt, tgt, name), dict(parameters=name, statement=stmt, xta=xta), shape='const-written:old-syntax:%s' % name)
+        if not is_const and errs:
+            run.tie_broken('3.x syntax: a write to a reference parameter / global (or a read of the constants) is rejected', dict(parameters=name, statement=stmt, errors=errs[:2], xta=xta))
+    return len(cases)
+
+
 def check(run):
     pr = run.proofs()
     drv, err = vlib.build_extract('constness', 'Extract_Constness.v', 'drv_constness') if os.path.exists(os.path.join(vlib.COQ, 'theories', 'Constness.vo')) else (None, 'Constness.vo missing')
@@ -155,9 +195,10 @@ def check(run):
             run.fail('%s on a constant (%s) is accepted: %r' % (fname, src['name'], stmt), dict(source=src['name'], form=fname, xml=xml), shape='const-written:%s:%s' % (src['name'].split(':')[0], fname))
         if not src['const'] and rejected:
             run.fail('%s on a mutable object (%s) is rejected: %r (%s)' % (fname, src['name'], stmt, errs[0] if errs else ''), dict(source=src['name'], form=fname, xml=xml, errors=errs[:2]), shape='mutable-rejected:%s:%s' % (src['name'].split(':')[0], fname))
+    nold = old_syntax(run)
     if mism:
         run.tie_broken('constness model / mutable twins vs type checker', mism[:8] + [dict(total=len(mism))])
-    run.cov.update(evaluations=len(cases), distinct_nontrivial=len(cases), traces_validated_against_impl=len(cases), exhaustive=True,
+    run.cov.update(old_syntax_cases=nold, evaluations=len(cases) + nold, distinct_nontrivial=len(cases), traces_validated_against_impl=len(cases), exhaustive=True,
                    rule='constness sources {global, bounded, local, value parameter, reference parameter, struct field, whole struct, array element, field of array of structs, typedef} x {const, mutable} and the binders '
                         '{forall, exists, sum, select, for-iteration} x write forms {=, op=, post ++, pre --, inline-if left/right, nested assignment, reference argument of a function (direct and through a second function), '
                         'reference argument of a template instantiation}: verdict vs the extracted isModifiableLValue model; const must be rejected, the mutable twin accepted',
